@@ -14,7 +14,10 @@ class Read_Error (Exception):
 class Stream:
     def __init__ (self, text):
         ans = [l.strip () for l in text.replace ('\r', '\n').split ('\n')]
-        self.ans = [a for a in ans if a != '']
+        # an empty line is an answer (the program reads line by line): only the empty lines at the very end are not
+        while ans and ans [-1] == '':
+            ans.pop ()
+        self.ans = ans
         self.pos = 0
         self.log = []
     def nxt (self, prompt):
